@@ -8,7 +8,10 @@ use pallas_codec::minicbor;
 use pallas_crypto::hash::Hasher;
 use pallas_primitives::conway::{LanguageViews, ScriptData, Tx, WitnessSet};
 use pv_core::serde_json::Value;
+use pallas_crypto::hash::Hash;
+use pallas_txbuilder::{BuildConway, ExUnits, Input, ScriptKind, StagingTransaction};
 use pv_core::{bytes_json, catch, jarr, jbytes, jint, json, jstr, Args, Ndjson};
+use std::collections::BTreeMap;
 
 /// (file, languages whose cost models the ledger used for that transaction)
 const REAL: [(&str, &[u8]); 5] = [
@@ -31,7 +34,104 @@ fn den(v: &Value) -> i64 {
     i64::try_from(x).unwrap_or_else(|_| pv_core::die("cost coefficient out of i64 range"))
 }
 
-/// `scriptdata-parts --costs costs.json --out parts.ndjson`
+/// cost vectors handed to the builder (small: the specification re-encodes them with TLC integers)
+fn txb_costs(lang: u8) -> Vec<i64> {
+    match lang {
+        0 => vec![100, -1, 23, 24],
+        1 => vec![0, 65536, -900],
+        _ => vec![2147483647, -25, 1],
+    }
+}
+
+/// Stage a Conway transaction with `spend` spend redeemers, `mint` mint redeemers, `datums` datums and the
+/// given language views (None = `language_views` never set), build it, and return the parts of the EMITTED
+/// transaction: redeemer bytes and datum bytes as they appear in the witness set, script_data_hash of the body.
+fn build_once(spend: usize, mint: usize, datums: usize, langs: &Option<Vec<u8>>, salt: u8) -> Result<Value, String> {
+    let mut st = StagingTransaction::new().fee(170_000);
+    // insertion order varies with the salt; every staging owns fresh HashMaps (fresh RandomState)
+    let mut order: Vec<usize> = (0..spend.max(1)).collect();
+    order.rotate_left(salt as usize % spend.max(1));
+    for i in order {
+        let inp = Input::new(Hash::<32>::from([(i as u8).wrapping_mul(37).wrapping_add(1); 32]), (i % 3) as u64);
+        st = st.input(inp.clone());
+        if i < spend {
+            // redeemer data differ per redeemer so that a different order gives different bytes
+            st = st.add_spend_redeemer(inp, vec![0x18, 0x64 + i as u8], Some(ExUnits { mem: 1000 + i as u64, steps: 70_000 }));
+        }
+    }
+    for j in 0..mint {
+        let pol = Hash::<28>::from([0xa0 + (j as u8) * 7; 28]);
+        st = st.mint_asset(pol, vec![0x41 + j as u8], 5 + j as i64).map_err(|e| e.to_string())?;
+        st = st.add_mint_redeemer(pol, vec![0xd8, 0x79, 0x9f, j as u8, 0xff], Some(ExUnits { mem: 7, steps: 9 + j as u64 }));
+    }
+    for k in 0..datums {
+        st = st.datum(if k % 2 == 0 { vec![0x43, 1, 2, k as u8] } else { vec![0x9f, 0x18, k as u8, 0xff] });
+    }
+    if let Some(ls) = langs {
+        st = st.language_views(LanguageViews(BTreeMap::new()));
+        for l in ls {
+            st = st.add_language([ScriptKind::PlutusV1, ScriptKind::PlutusV2, ScriptKind::PlutusV3][*l as usize], txb_costs(*l));
+        }
+    }
+    let built = st.build_conway_raw().map_err(|e| e.to_string())?;
+    let tx: Tx = minicbor::decode(&built.tx_bytes.0).map_err(|e| format!("built tx does not decode: {e}"))?;
+    let ws = &tx.transaction_witness_set;
+    let r = ws.redeemer.as_ref().map(|x| x.raw_cbor().to_vec()).unwrap_or_default();
+    let d = ws.plutus_data.as_ref().map(|x| x.raw_cbor().to_vec()).unwrap_or_default();
+    let sorted = match ws.redeemer.as_ref().map(|x| (**x).clone()) {
+        Some(pallas_primitives::conway::Redeemers::List(v)) => v.windows(2).all(|w| (w[0].tag, w[0].index) <= (w[1].tag, w[1].index)),
+        _ => true,
+    };
+    let ls: Vec<Value> = langs.iter().flatten().map(|l| json!({"lang": l, "costs": txb_costs(*l)})).collect();
+    Ok(json!({"r": bytes_json(&r), "d": bytes_json(&d), "langs": ls, "views_set": langs.is_some(),
+              "body": tx.transaction_body.script_data_hash.map(|h| h.to_string()).unwrap_or_default(),
+              "n_redeemers": spend + mint, "sorted": sorted}))
+}
+
+/// staged cases x several fresh builds; identical outcomes are merged (count kept)
+fn txb_parts(out: &mut Ndjson, thorough: bool) {
+    let spends: &[usize] = if thorough { &[0, 1, 2, 3, 4, 6, 8] } else { &[0, 1, 3, 6] };
+    let mints: &[usize] = if thorough { &[0, 1, 2] } else { &[0, 2] };
+    let lang_sets: Vec<Option<Vec<u8>>> = if thorough {
+        vec![None, Some(vec![]), Some(vec![0]), Some(vec![1]), Some(vec![2]), Some(vec![0, 1]), Some(vec![0, 2]), Some(vec![1, 2]), Some(vec![0, 1, 2])]
+    } else {
+        vec![None, Some(vec![]), Some(vec![0]), Some(vec![1, 2]), Some(vec![0, 1, 2])]
+    };
+    let builds = if thorough { 8 } else { 4 };
+    for &s in spends {
+        for &m in mints {
+            for dn in [0usize, 2] {
+                for ls in &lang_sets {
+                    let case = format!("txb/s{s}m{m}d{dn}/{}", match ls { None => "unset".to_string(), Some(v) => format!("v{}", v.iter().map(|x| x.to_string()).collect::<String>()) });
+                    let mut seen: Vec<(Value, usize)> = vec![];
+                    for b in 0..builds {
+                        let v = match catch(|| build_once(s, m, dn, ls, b as u8)) {
+                            Ok(Ok(v)) => v,
+                            Ok(Err(e)) => json!({"error": e}),
+                            Err(p) => json!({"panic": p}),
+                        };
+                        match seen.iter_mut().find(|(x, _)| *x == v) {
+                            Some((_, c)) => *c += 1,
+                            None => seen.push((v, 1)),
+                        }
+                    }
+                    for (k, (mut v, c)) in seen.into_iter().enumerate() {
+                        v["name"] = json!(format!("{case}#{k}"));
+                        v["builds"] = json!(c);
+                        if v.get("r").is_none() {
+                            v["r"] = json!([]);
+                            v["d"] = json!([]);
+                            v["langs"] = json!([]);
+                        }
+                        out.ev(v);
+                    }
+                }
+            }
+        }
+    }
+}
+
+/// `scriptdata-parts --costs costs.json --out parts.ndjson [--txb quick|thorough]`
 pub fn parts(args: &Args) {
     let costs: Value = pv_core::serde_json::from_str(&std::fs::read_to_string(args.get("costs")).unwrap_or_else(|e| pv_core::die(&e.to_string())))
         .unwrap_or_else(|e| pv_core::die(&e.to_string()));
@@ -44,6 +144,9 @@ pub fn parts(args: &Args) {
         let d = ws.plutus_data.as_ref().map(|x| x.raw_cbor().to_vec()).unwrap_or_default();
         let ls: Vec<Value> = langs.iter().map(|l| json!({"lang": l, "costs": costs[l.to_string()].clone()})).collect();
         out.ev(json!({"name": name, "r": bytes_json(&r), "d": bytes_json(&d), "langs": ls}));
+    }
+    if let Some(t) = args.opt("txb") {
+        txb_parts(&mut out, t == "thorough");
     }
     out.finish();
 }
@@ -94,6 +197,14 @@ pub fn replay(args: &Args) {
             _ => {
                 let name = jstr(&row["name"]);
                 let part = parts.iter().find(|p| jstr(&p["name"]) == name).unwrap_or_else(|| pv_core::die("unknown real tx"));
+                if name.starts_with("txb/") {
+                    let got = match part["body"].as_str() {
+                        Some(h) if !h.is_empty() => json!({"st": "hash", "h": h}),
+                        _ => json!({"st": "nohash"}),
+                    };
+                    out.ev(json!({"i": i, "kind": "real", "name": name, "got": got, "want": want}));
+                    continue;
+                }
                 let lv = views(&part["langs"], true);
                 let opt = if lv.0.is_empty() { None } else { Some(lv) };
                 let bytes = load_tx(name);
